@@ -131,13 +131,16 @@ def cases(draw):
         kind = draw(st.sampled_from(RAW_SITES if raw else ESCAPED_SITES))
         cls = draw(st.sampled_from(
             ["str", "str", "str", "bytes", "strsub", "obj", "int", "float",
-             "msg", "html", "intsub", "floatsub", "strsub_str"]))
+             "msg", "html", "intsub", "floatsub", "strsub_str",
+             "defobj"]))
         if kind in ("structure", "structure_replace", "structure_expr",
                     "cdata") and cls in ("msg", "html"):
             cls = "str"
         if kind in ("structure", "structure_replace", "structure_expr") and \
-                cls == "bytes":
-            cls = "str"    # structure of bytes is unspecified
+                cls in ("bytes", "defobj"):
+            # structure of bytes is unspecified; structure takes str() of an
+            # object as it is (no translation function in between)
+            cls = "str"
         text = draw(hostile_text())
         if kind == "comment":
             # '--' may not occur in a comment in the first place
@@ -185,6 +188,10 @@ def value_of(site, harmless=False, index=0):
         return values.Obj(t), t
     if c == "strsub_str":
         return values.StrSubStr("label", t), t
+    if c == "defobj":
+        # (the translation function answers with the inner object: its
+        # string form is what is inserted - escaped)
+        return values.DefObj(t), t
     if c == "int":
         n = 1 if harmless else int(site["num"])
         return n, str(n)
